@@ -147,7 +147,7 @@ def monitor_cases(rng, tier, stats):
             r = box.get("ratio")
             if r is None:
                 return "division raised"
-            if r > C_DIV and r * tol > 1e-11:
+            if not (r <= C_DIV or r * tol <= 1e-11):      # NaN-safe
                 return "||q*y - x||/||x|| = %.3g*tol exceeds %g*tol (tol=%.2g, %s)" % (r, C_DIV, tol, label)
             return None
         cases.append(Case(None, impl, oracle, "monitor/" + label, True, desc="divide %s N=%s tol=%.2g seed=%d" % (mode, N, tol, seed)))
